@@ -21,7 +21,8 @@ ASSUMPTIONS = [
     "harness/wire.py (independent codec written from the layout tables) is the reference for layout and for accept/reject",
     "fields are generated inside their wire widths only (the statement's precondition)",
 ]
-BUDGET = {"quick": {"examples": 16000, "shrink": 200}, "thorough": {"examples": 640000, "shrink": 1000}}
+BUDGET = {"quick": {"examples": 16000, "shrink": 200}, "thorough": {"examples": 640000, "shrink": 1000, "extra_shards": 8}}
+FUZZ_RUNS = {"quick": 0, "thorough": 1000000}
 EXHAUSTIVE = "all 10 message types x 11 return codes x 3 payload classes (fixed cases)"
 
 B16 = [0, 1, 0x7FFF, 0x8000, 0xFFFE, 0xFFFF]
@@ -123,7 +124,44 @@ class _Rec(sd.SOMEIPDatagramProtocol):
         self.got.append((someip_message, addr, multicast))
 
 
+def run_raw(data):
+    """decoder differential + delivery on arbitrary bytes (inputs of the coverage-guided campaign)"""
+    buf = data
+    steps = 0
+    while buf and steps < 12:
+        steps += 1
+        try:
+            wf, wrest = wire.decode_someip(buf)
+            werr = None
+        except wire.WireError as e:
+            werr = e
+        try:
+            lm, lrest = hdr.SOMEIPHeader.parse(buf)
+            lerr = None
+        except hdr.ParseError as e:
+            lerr = e
+        require((werr is None) == (lerr is None), "C01.accept-differs", lambda: f"independent decoder: {werr!r}; library: {lerr!r}; bytes={buf[:24].hex()}.. len={len(buf)}")
+        if werr is not None:
+            break
+        require(_same(lm, wf) and bytes(lrest) == wrest, "C01.decode-differs", lambda: f"bytes={buf[:24].hex()}")
+        require(bytes(lm.build()) == buf[: len(buf) - len(wrest)], "C01.layout", lambda: f"re-encoding differs for {buf[:24].hex()}")
+        buf = wrest
+    expect = wire.split_datagram(data)
+    p = _Rec()
+    p.datagram_received(data, ("10.0.0.2", 30490), False)
+    require(len(p.got) == len(expect) and all(_same(g[0], e) for g, e in zip(p.got, expect)), "C01.delivery-count", lambda: f"{len(p.got)} delivered, {len(expect)} expected")
+    return ok(len(expect) >= 1, ["kind=raw"])
+
+
+def extra(tier, seed, shard, st):
+    import sys
+    from ..fuzz import campaign
+    campaign.run_shard(sys.modules[__name__], tier, seed, shard, st, runs=FUZZ_RUNS[tier], with_corpus=shard % 2 == 0)
+
+
 def run_case(case):
+    if case.get("kind") == "raw":
+        return run_raw(bytes.fromhex(case["hex"]))
     msgs = case["msgs"]
     suffix = case["suffix"]
     corrupt = case.get("corrupt")
